@@ -232,13 +232,13 @@ def descendantsGen (g : Graph) (lo : Nat) (hi : Option Nat) (heads roots : List 
 
 /-- `generation_number`: 0 for a commit without parents, else 1 + max over parents.
 `gens g` lists them by position. -/
+def genOf (acc : List Nat) : List Nat → Nat
+  | [] => 0
+  | ps => 1 + (ps.map fun q => acc.getD q 0).foldl max 0
+
 def gensAux : List (List Nat) → List Nat → List Nat
   | [], acc => acc
-  | ps :: rest, acc =>
-    let gn := match ps with
-      | [] => 0
-      | _ => 1 + (ps.map fun q => acc.getD q 0).foldl max 0
-    gensAux rest (acc ++ [gn])
+  | ps :: rest, acc => gensAux rest (acc ++ [genOf acc ps])
 
 def gens (g : Graph) : List Nat := gensAux g.parents []
 
